@@ -224,7 +224,7 @@ Definition refutation_witnesses : list (mutator * nat * N) :=
    (m_prop_cssText_pinned, 0%nat, 6%N);           (* bad priority: name, value and priority committed *)
    (m_prop_priority_pinned, 0%nat, 6%N);          (* "!x" is stored, then refused *)
    (m_ml_mediaText_pinned, 0%nat, 3%N);           (* no content: wellformed already cleared *)
-   (m_sheet_insertRule_ns, 0%nat, 9%N);           (* clean-up of the older @namespace rule refused *)
+   (m_sheet_insertRule_ns_pinned, 0%nat, 9%N);    (* clean-up of the older @namespace rule refused *)
    (m_sheet_insertRule_import, 0%nat, 10%N);      (* imported sheet refused after the insertion *)
    (m_sheet_insertRule_list, 2%nat, 105%N);       (* second rule of the list refused (hierarchy) *)
    (m_media_insertRule_list, 2%nat, 105%N);
@@ -310,7 +310,7 @@ Lemma prop_priority_pinned_refuted : refuted_at m_prop_priority_pinned 0 6.
 Proof. apply refuted_witness. in_list. Qed.
 Lemma ml_mediaText_pinned_refuted : refuted_at m_ml_mediaText_pinned 0 3.
 Proof. apply refuted_witness. in_list. Qed.
-Lemma sheet_insertRule_ns_refuted : refuted_at m_sheet_insertRule_ns 0 9.
+Lemma sheet_insertRule_ns_pinned_refuted : refuted_at m_sheet_insertRule_ns_pinned 0 9.
 Proof. apply refuted_witness. in_list. Qed.
 Lemma sheet_insertRule_import_refuted : refuted_at m_sheet_insertRule_import 0 10.
 Proof. apply refuted_witness. in_list. Qed.
